@@ -233,7 +233,7 @@ func runABI(r *rand.Rand) {
 			rep.Case(fmt.Sprintf("gocallsize/%d/%s/%s", argBegin, ssaNames(l), ssaNames(res)))
 			if got != want {
 				rep.Violate(hx.Violation{Kind: "correspondence", Signature: "C08:go-call-stack-size-differs-from-model",
-					What: "GoFunctionCallRequiredStackSize differs from the Lean goCallRequiredStackSize",
+					What:  "GoFunctionCallRequiredStackSize differs from the Lean goCallRequiredStackSize",
 					Input: map[string]any{"params": ssaNames(l), "results": ssaNames(res), "argBegin": argBegin}, Expected: want, Actual: got})
 			}
 		}
